@@ -64,7 +64,7 @@ def run_replay(ob, pid, tier):
     safe = ob.oid.replace("/", "_").replace("#", "-").replace("~", "-")
     path = os.path.join(VERIF, "replays", f"{pid}-{safe}.json")
     rec = dict(property=pid, obligation=ob.oid, kind=ob.kind, function=ob.fn, backend=ob.backend, model=ob.model,
-               replay=({k: v for k, v in ob.replay.items() if k != "vars"} if ob.replay else None),
+               replay=({k: v for k, v in ob.replay.items() if k not in ("vars", "funcs")} if ob.replay else None),
                verifier_output=ob.solver_output[:4000], repo=REPO, reproduced=None, observed=None)
     with open(path, "w") as fh:
         json.dump(rec, fh, indent=1, default=str)
@@ -129,7 +129,7 @@ def main(argv=None):
         return 0 if p.returncode == 0 else 3
 
     core.load_contracts()
-    timeout_ms = 20000 if tier == "quick" else 120000
+    timeout_ms = 10000 if tier == "quick" else 120000
     obs, fam_errors, ctxs = core.run_families(pid, tier, only=args.only)
     obs = dedupe(obs)
     for ob in obs:
@@ -155,7 +155,9 @@ def main(argv=None):
     violations, undecided, checker_errors, known_hits = [], [], [], []
     lines = []
     for ob in obs:
-        if ob.status in ("discharged", "ok"):
+        if ob.status in ("discharged", "ok", "guard_unknown"):
+            # guard_unknown: a cover/control satisfiability query the solver could not decide (quantifiers);
+            # reported in the evidence, it neither passes nor fails anything
             continue
         if ob.status == "refuted":
             if ob.oid in known_by_ob:
@@ -179,7 +181,12 @@ def main(argv=None):
             undecided.append(core.Obligation(oid, [pid], "missing", [], None, note="not generated (family untranslatable on this tree)", status="missing"))
 
     # L3 bounded stand-ins / conformance (also the fallback for undecided obligations)
-    l3 = dict(ran=False, reason="disabled") if args.no_l3 else bounded_standins(pid, tier, seed)
+    if args.no_l3:
+        l3 = dict(ran=False, reason="disabled")
+    elif violations and all(v[2] for v in violations):
+        l3 = dict(ran=False, reason="skipped: the deductive layer already reported replayed violations")
+    else:
+        l3 = bounded_standins(pid, tier, seed)
     l3_viol = []
     if l3.get("ran"):
         for v in l3.get("violations", []):
@@ -190,6 +197,9 @@ def main(argv=None):
             l3_viol.append(v)
 
     # ---------------- report
+    guards_unknown = [ob.oid for ob in obs if ob.status == "guard_unknown"]
+    obs_all = obs
+    obs = [ob for ob in obs if ob.status != "guard_unknown"]
     n_ob = len(obs)
     n_dis = sum(1 for ob in obs if ob.status in ("discharged", "ok"))
     exit_code = 0
@@ -246,7 +256,7 @@ def main(argv=None):
             backends=backends, solver_time_s=round(sum(ob.ms for ob in obs) / 1000, 3),
             cover_checks=sum(1 for ob in obs if ob.kind == "cover"), control_checks=sum(1 for ob in obs if ob.kind == "control"),
             untranslatable=[dict(family=n, reason=m[:400]) for n, k, m in fam_errors],
-            missing_vs_baseline=missing,
+            missing_vs_baseline=missing, guards_undetermined=guards_unknown,
             bounded=l3 if l3.get("ran") else dict(ran=False, reason=l3.get("reason")),
             samples=samples,
             known_findings=[kf for _ob, kf in known_hits],
